@@ -363,7 +363,7 @@ func checkC09(c *Ctx) {
 		}
 		nDel++
 		var foreign []string
-		for _, l := range m.AllGuards(op.Call, false) {
+		for _, l := range append(m.AllGuards(op.Call, false), m.controlConds(op.Call)...) {
 			s := l.S.String()
 			switch {
 			case l.Derived:
